@@ -284,7 +284,15 @@ func (s *SessionStore) Remove(ctx context.Context, session *Session) {
 	s.mutex.Lock()
 	defer s.mutex.Unlock()
 
-	delete(s.sessions, s.GlobalSessionID(session.ID))
+	// Only the registered session itself can be removed: a second removal of
+	// the same session, or the removal of an ended session whose id was taken
+	// over by a newer one, must not touch the registry, the id pool or the gauge.
+	globalID := s.GlobalSessionID(session.ID)
+	if registered, ok := s.sessions[globalID]; !ok || registered != session {
+		return
+	}
+
+	delete(s.sessions, globalID)
 	session.Close()
 
 	s.ids.Reuse(session.ID)
